@@ -102,6 +102,51 @@ func c18(args []string) {
 			emit("SAMPLE", fmt.Sprint(human))
 		}
 	}
+	// large single writes (sizes around every power of two up to 128 KiB, contents that drive the low state byte through
+	// every value) against the same bytes written in pieces and against the bit-serial reference
+	big := 0
+	for _, size := range []int{255, 256, 257, 511, 512, 1023, 1024, 1025, 2048, 4095, 4096, 4097, 8192, 16384, 32767, 32768, 65535, 65536, 65537, 70000, 131072} {
+		for variant := 0; variant < 4; variant++ {
+			b := r.bytes(size)
+			switch variant {
+			case 1:
+				for x := range b {
+					b[x] = byte(x * 7)
+				}
+			case 2:
+				for x := range b {
+					b[x] = 0
+				}
+				b[0] = 0xFF
+			case 3:
+				for x := range b {
+					b[x] = 0xFF
+				}
+			}
+			h := crc16.New()
+			h.Write(b)
+			one := h.Sum16()
+			h2 := crc16.New()
+			for off := 0; off < len(b); {
+				k := 1 + r.intn(700)
+				if off+k > len(b) {
+					k = len(b) - off
+				}
+				h2.Write(b[off : off+k])
+				off += k
+			}
+			want := crcRef(0, b)
+			big++
+			if one != want || h2.Sum16() != want {
+				emitJSON("FAIL", "", map[string]any{"kind": "large-write", "size": size, "variant": variant, "single_write": one, "pieces": h2.Sum16(), "want": want,
+					"bytes_head": fmt.Sprintf("%x", b[:minInt(len(b), 64)]), "seed": c.seed})
+			}
+			if size <= 1025 && variant < 2 {
+				emit("CASE", fmt.Sprintf("([OpWrite %s; OpSum16], [OutNone; OutSum16 %s])", coqBytes(b), coqN(uint64(one))))
+			}
+		}
+	}
+	stat("oracle_large_writes", big)
 	// all 256 bytes from 4096 strided states reached through the exported API (two-byte prefix)
 	cnt := 0
 	for p := 0; p < 65536; p += 16 {
